@@ -269,6 +269,23 @@ func genIndex(g *hx.Gen, r *hx.Rand) {
 	}
 }
 
+// the real index above its trim trigger: two bulk blocks fill the cache beyond volume + TrimmingInterval
+// (at heights that are not multiples of anything special), the next block must trim first.
+func genIndexTrim(g *hx.Gen, r *hx.Rand) {
+	g.Emit("reset")
+	vol := 3 + r.Intn(5)
+	g.Emit("x.reset %d 0", vol)
+	g.Emit("x.bulk 1 1 6000")
+	g.Emit("x.bulk 2 6001 %d", 4003+vol) // now volume + 10003 cached: over the trigger
+	g.Emit("x.fetch %d", 1+r.Intn(10000))
+	g.Emit("x.connect 3 20001:1:1:1:-;20002:0:1:0:-") // trims to volume-1, then caches its two transactions
+	for k := 0; k < 6; k++ {
+		g.Emit("x.fetchv %d", 1+r.Intn(10010))
+	}
+	g.Emit("x.fetchv 20002")
+	g.Emit("x.connect 4 20003:0:1:0:-")
+}
+
 func genBlock(g *hx.Gen, r *hx.Rand) {
 	g.Emit("reset")
 	g.Emit("b.reset")
@@ -346,6 +363,7 @@ func gen(g *hx.Gen) {
 	for i := 0; i < g.N(25, 200); i++ {
 		genIndex(g, g.R.Fork(uint64(25000+i)))
 	}
+	genIndexTrim(g, g.R.Fork(26000))
 	for i := 0; i < g.N(15, 100); i++ {
 		genBlock(g, g.R.Fork(uint64(30000+i)))
 	}
